@@ -10,7 +10,7 @@ values a harness can observe at each of them.
 """
 
 
-from models.sm_model import SMModel
+from models.sm_model import SMModel, StateRaised
 from models.sa_model import SAModel
 
 
@@ -92,15 +92,26 @@ class RobotModel:
             def on_call(self, st, tm, state_tm, initial, in_eng, started):
                 model.sm_calls += 1
                 site = f"{self.prefix}.st.{st}"
-                n = model.cb(site, [tm, state_tm, initial])
+                fault = None
+                try:
+                    n = model.cb(site, [tm, state_tm, initial])
+                except ModelFault as f:
+                    # the state function performs its action and then raises: the machine abandons the iteration there
+                    n, fault = f.visit, f
+                act = None
                 for a in list(model.ev.get((site, n), ())) + list(model.ev.get((site, "*"), ())):
                     if a[0] == "smnext":
-                        return ("next", a[1], 0)
-                    if a[0] == "smnow":
-                        return ("now", a[1], 0)
-                    if a[0] == "smdone":
-                        return ("done", None, 0)
-                return None
+                        act = ("next", a[1], 0)
+                    elif a[0] == "smnow":
+                        act = ("now", a[1], 0)
+                    elif a[0] == "smdone":
+                        act = ("done", None, 0)
+                    if act:
+                        break
+                if fault is not None:
+                    model.pending_fault = fault
+                    act = ((act[0], act[1], 0) if act else (None, None, 0)) + (True,)
+                return act
 
             def on_done(self):
                 model.sm_stops += 1
@@ -121,6 +132,7 @@ class RobotModel:
                 self.mode_models[m["name"]] = ("sa", SAModel(dict(m["machine"], vars=[]), exact=bool(cfg["dyadic"])))
         self.sm_calls = 0
         self.sm_stops = 0
+        self.pending_fault = None
 
     # ------------------------------------------------------------ callbacks
     def snapshot(self):
@@ -205,7 +217,16 @@ class RobotModel:
             sm.dur[state] = value
 
     def _sm_step(self, prefix, sm, fn):
-        fn()
+        try:
+            fn()
+        except StateRaised:
+            # a state function raised inside the machine's iteration: the exception leaves the component's execute() /
+            # the mode's on_iteration() like any other user-code fault
+            sm.take()
+            f, self.pending_fault = self.pending_fault, None
+            if self.ds["fms"]:
+                return
+            raise f
         sm.take()
         self.note(f"{prefix}.post", [sm.executing, sm.cs])
 
